@@ -145,6 +145,8 @@ def gen_history(rng, opts=None):
             v = rng.randrange(ns)
             lo = rng.choice([0, 0, 1, 4, -4]); hi = lo + rng.choice([0, 1, 4, 8, 12])
             ops.append("assume %d 2 %s" % (r, cst_bounds(v, lo, hi)))
+        elif pick == "forget" and rng.random() < 0.3:
+            ops.append("forget1 %d %d" % (r, rng.randrange(ns + c.na)))       # operator-=
         elif pick in ("forget", "project"):
             n = rng.randint(1, 2)
             vs = rng.sample(range(ns + c.na), n)
@@ -187,6 +189,47 @@ def gen_history(rng, opts=None):
             ops.append("q_leq %d %d" % (rng.randrange(c.nregs), rng.randrange(c.nregs)))
     meta = "w=%d esz=%s one=%s" % (8 * c.esz[0], ",".join(map(str, c.esz)), ",".join("-" if x is None else str(x) for x in c.one))
     return "%s %d %d %d %s ; %s" % (opts.get("head", "ahist"), c.nregs, c.ns, c.na, meta, " ; ".join(ops))
+
+
+def gen_loop_history(rng, opts=None):
+    """the shape of a loop analysed with widening: register 0 = loop head, 1 = body, 2 = exit;
+    the body stores (and loads) at the induction variable i, which advances by the element size"""
+    opts = opts or {}
+    sz = rng.choice([1, 4, 4, 8, 2])
+    na = rng.randint(1, 2)
+    ns = 4                      # v0 = i, v1 = value, v2, v3 = loaded
+    n = rng.randint(2, 6)       # cells
+    ops = ["assign 0 0 %s" % E([], 0), "assign 0 1 %s" % E([], rng.choice(VALS))]
+    for a in range(na):
+        if rng.random() < 0.7:
+            ops.append("ainit 0 %d %s %s %s %s" % (a, E([], sz), E([], 0), E([], sz * (n - 1 + rng.randrange(2))), E([], rng.choice(VALS))))
+    iters = rng.randint(2, 4)
+    for it in range(iters):
+        ops.append("copy 1 0")
+        ops.append("assume 1 1 C le E 1 1 0 %d" % (-(sz * (n - 1))))
+        for _ in range(rng.randint(1, 3)):
+            a = rng.randrange(na)
+            x = rng.random()
+            if x < 0.5:
+                val = rng.choice([E([], rng.choice(VALS)), E([(1, 1)], 0), E([(1, 0)], 1)])
+                ops.append("astore 1 %d %s %s %s 0" % (a, E([], sz), E([(1, 0)], 0), val))
+            elif x < 0.8:
+                ops.append("aload 1 %d %d %s %s" % (rng.choice([2, 3]), a, E([], sz), E([(1, 0)], 0)))
+            elif x < 0.9:
+                ops.append("astore 1 %d %s %s %s 0" % (a, E([], sz), E([], sz * rng.randrange(n)), E([], rng.choice(VALS))))
+            else:
+                ops.append("arith 1 add 1 1 k %d" % rng.choice([1, 2]))
+        ops.append("arith 1 add 0 0 k %d" % sz)
+        ops.append("%s 0 0 1" % ("join" if it == 0 else rng.choice(["widen", "widen", "join", "widenthr"])))
+        if ops[-1].startswith("widenthr"):
+            ops[-1] += " 2 %d %d" % (sz * n, sz * n + sz)
+    ops.append("copy 2 0")
+    ops.append("assume 2 1 C le E 1 -1 0 %d" % (sz * (n - 1)))
+    for a in range(na):
+        ix = E([], sz * rng.randrange(n)) if rng.random() < 0.6 else E([(1, 0)], -sz)
+        ops.append("aload 2 %d %d %s %s" % (rng.choice([2, 3]), a, E([], sz), ix))
+    meta = "w=%d esz=%s one=%s" % (8 * sz, ",".join([str(sz)] * na), ",".join(["-"] * na))
+    return "%s 3 %d %d %s ; %s" % (opts.get("head", "ahist"), ns, na, meta, " ; ".join(ops))
 
 
 # hand-picked cases: the defects found while building the model, then shapes aimed at the
@@ -232,7 +275,7 @@ def gen(seed, tier, n=None, opts=None):
     n = n if n is not None else (500 if tier == "quick" else 20000)
     lines = list(CORPUS) if (opts or {}).get("corpus", True) else []
     for _ in range(n):
-        lines.append(gen_history(rng, opts))
+        lines.append(gen_loop_history(rng, opts) if rng.random() < 0.15 else gen_history(rng, opts))
     if opts and opts.get("head"):
         lines = [l.replace("ahist", opts["head"], 1) if l.startswith("ahist") else l for l in lines]
     return lines
@@ -654,6 +697,13 @@ def gen_cells_line(rng):
                                                              rng.choice([0, 1, 2, 99]), rng.choice([0, 1, 2, 99])))
         elif pick in ("all", "ncells"):
             ops.append("%s %d" % (pick, w))
+    if rng.random() < 0.12 and not (dirty[0] or dirty[1]):
+        # meet of array states (last: it stops with CRAB_ERROR when the element sizes are incompatible)
+        sx, sy = rng.choice([(0, 1), (1, 0), (0, 0), (1, 1)])
+        ex = rng.choice([str(sz0), "T", "8"]) if sx else "0"
+        ey = rng.choice([str(sz0), "T", "8"]) if sy else "0"
+        ops.append("asmeet %d %d %d %d %s %d %s %d %d" % (rng.randint(0, 1), 64, 64, sx, ex, sy, ey,
+                                                         rng.choice([0, 1, 99]), rng.choice([0, 1, 99])))
     return "cells ; " + " ; ".join(ops)
 
 
